@@ -188,23 +188,27 @@ def run_one(mod, proof, ix, workdir):
         declared = set(getattr(mod, "assumed_contracts", {}).keys())
         replace = [r for r in proof.replace if r in em.funcs or (r in declared and _re.search(r"\b%s\(" % _re.escape(r), body_text))]
         out["unused_replacements"] = [r for r in proof.replace if r not in replace]
-        # a loop the contracts do not know (the code gained a loop): without a loop contract cbmc would unwind it for ever. It is unwound three
-        # times instead (an execution prefix from the contract's precondition, so any obligation failing there fails for real); the failing
-        # unwinding assertion itself means "not decided", never a violation (see run.py)
+        # a loop without a loop contract: constant-bound helper loops are unwound completely by cbmc as before; a loop the contracts do not know
+        # (the code gained a loop) would be unwound for ever, so the loops OF THE FUNCTIONS CONCERNED are capped at 64 rounds through --unwindset
+        # (a global --unwind would also hit the loops of the dfcc instrumentation library). An obligation failing inside that execution prefix fails
+        # for real; a failing unwinding assertion alone means "not decided" (see run.py)
         unwind = proof.unwind
+        unwindset = tuple(proof.unwindset)
         if proof.loop_contracts and unwind is None and (proof.enforce or proof.replace):
             cdict = dict(mod.contracts)
             if proof.contracts:
                 cdict.update(proof.contracts)
-            uncovered = [fo.cname for fo in em.funcs.values() if fo.cname not in replace and
+            uncovered = [fo for fo in em.funcs.values() if fo.cname not in replace and
                          fo.nloops > len(cdict.get(fo.cname, {}).get("loops", {}))]
             if uncovered:
-                unwind = 3
-                out["loops_without_contract"] = uncovered
+                # (dfcc renames the body of the function under contract to <f>_wrapped_for_contract_checking)
+                unwindset = unwindset + tuple("%s%s.%d:64" % (fo.cname, suf, i) for fo in uncovered for i in range(fo.nloops)
+                                              for suf in (("", "_wrapped_for_contract_checking") if fo.cname == proof.enforce else ("",)))
+                out["loops_without_contract"] = [fo.cname for fo in uncovered]
         res = P.prove(workdir, proof.name, text, entry, enforce=proof.enforce, replace=replace,
                       loop_contracts=proof.loop_contracts, solver=proof.solver, unwind=unwind,
                       timeout=proof.timeout, object_bits=proof.object_bits, mem_gb=proof.mem_gb,
-                      unwindset=proof.unwindset, extra_checks=proof.check_flags,
+                      unwindset=unwindset, extra_checks=proof.check_flags,
                       unwinding_assertions=not getattr(proof, "no_unwinding_assertions", False))
         out["status"] = "ok"
         out["result"] = res
